@@ -18,18 +18,19 @@ import (
 func init() { register("c01", "C01", runC01) }
 
 type clientSpec struct {
-	name   string
-	nodeID string
-	ns     string
-	labels map[string]string
-	roots  []string
-	meta   func(m *model.NodeMetadata)
+	locality *core.Locality // proxy locality (locality load balancing only applies to proxies that have one)
+	name     string
+	nodeID   string
+	ns       string
+	labels   map[string]string
+	roots    []string
+	meta     func(m *model.NodeMetadata)
 }
 
 var clientMenu = []clientSpec{
-	{name: "sc-a-foo", nodeID: "sidecar~10.3.0.1~foo-1.a~a.svc.cluster.local", ns: "a", labels: map[string]string{"app": "foo"}},
+	{name: "sc-a-foo", nodeID: "sidecar~10.3.0.1~foo-1.a~a.svc.cluster.local", ns: "a", labels: map[string]string{"app": "foo"}, locality: &core.Locality{Region: "region1", Zone: "zone1"}},
 	{name: "sc-a-bar", nodeID: "sidecar~10.3.0.2~bar-1.a~a.svc.cluster.local", ns: "a", labels: map[string]string{"app": "bar"}},
-	{name: "sc-b-foo", nodeID: "sidecar~10.3.0.3~foo-1.b~b.svc.cluster.local", ns: "b", labels: map[string]string{"app": "foo"}},
+	{name: "sc-b-foo", nodeID: "sidecar~10.3.0.3~foo-1.b~b.svc.cluster.local", ns: "b", labels: map[string]string{"app": "foo"}, locality: &core.Locality{Region: "region2", Zone: "zone2"}},
 	{name: "gw", nodeID: "router~10.3.0.9~gw-1.istio-system~istio-system.svc.cluster.local", ns: "istio-system", labels: map[string]string{"istio": "ingressgateway"}},
 	{name: "sc-a-dns", nodeID: "sidecar~10.3.0.4~dns-1.a~a.svc.cluster.local", ns: "a", labels: map[string]string{"app": "dns"},
 		roots: []string{v3.ClusterType, v3.ListenerType, v3.NameTableType},
@@ -46,7 +47,7 @@ func (cs clientSpec) node() *core.Node {
 	if cs.meta != nil {
 		cs.meta(m)
 	}
-	return &core.Node{Id: cs.nodeID, Metadata: m.ToStruct()}
+	return &core.Node{Id: cs.nodeID, Metadata: m.ToStruct(), Locality: cs.locality}
 }
 
 func (cs clientSpec) build(delta bool) *xdsClient {
